@@ -1384,7 +1384,7 @@ RULES = {
     "C10": "as C01; non-trivial = distinct rejected insert/try_insert calls",
     "C11": "as C01; non-trivial = distinct mutate calls on a present key",
     "C13": "as C01; non-trivial = distinct capacity operations and growing insertions",
-    "C12": "every edge of the iterator model (all words over next/next_back up to len+2/3, 7 kinds) replayed under all configurations + iterator runs inside random traces; non-trivial = distinct (recency order, kind, word)",
+    "C12": "every edge of the iterator model (all words over next / next_back / nth(1,2) / nth_back(1,2) up to len+1, 7 kinds) replayed under all configurations + iterator runs inside random traces; non-trivial = distinct (recency order, kind, word)",
     "C14": "every edge of the two-cache model replayed + random traces with up to 4 live caches; non-trivial = distinct clone calls and distinct calls made while two caches are alive",
     "C16": "crash sweep: for sampled (state, op) edges of the bounded model and each callback kind, a panic at the n-th callback for n = 1.. until the op completes; plus random crash injection in long traces; non-trivial = injected panics that actually fired (each a distinct state/op/kind/n)",
     "C17": "every forget edge of the iterator model (state x kind x word) as its own segment followed by continued use and drop, validated by TLC; plus random traces forgetting 35% of iterators; non-trivial = distinct forget segments",
